@@ -2,7 +2,7 @@
    and the connection check; the iterative stages of ihu are not modelled, see DESIGN.md). *)
 From Coq Require Import List Arith ZArith Bool.
 Import ListNotations.
-From PF Require Import Arr Net Elev ElevSpec Upscale UpscaleSpec UpscaleId UpscaleLoopfree.
+From PF Require Import Arr Net Elev ElevSpec Upscale UpscaleSpec UpscaleId UpscaleLoopfree UpscaleD8.
 
 (* shape: with nrow = ceil(subnrow/s), ncol = ceil(subncol/s) every fine pixel has a coarse cell inside the raster *)
 Theorem coarse_shape_covers : forall subnrow subncol cs subidx, 0 < cs -> 0 < subncol -> subidx < subnrow * subncol ->
@@ -122,6 +122,22 @@ Theorem eam_plus_scale1 : forall sds upa subnrow subncol ea, 0 < subncol -> leng
   fst (fst (up_eam_plus sds upa subnrow subncol 1 ea)) = sds.
 Proof. exact UpscaleId.eam_plus_scale1. Qed.
 Print Assumptions eam_plus_scale1.
+
+(* 8-NEIGHBOUR LINKS OF THE EFFECTIVE-AREA METHOD.  If the fine links join 8-neighbouring pixels (D8 / LDD rasters) and the
+   effective-area map contains the middle rows and columns of every coarse cell (check_cross, evaluated on the map the
+   implementation produced, in every case), then every link of eam_nextidx joins a cell with itself or one of its eight
+   neighbours: a path moving one pixel at a time cannot get past the middle of a neighbouring cell without stepping on
+   its effective area. *)
+Theorem eam_links_d8 : forall sds upa subncol cs nrow ncol ea, 0 < cs -> 0 < subncol -> subncol <= ncol * cs ->
+  (forall t, t < length sds -> sd sds t < length sds -> sd sds (sd sds t) < length sds) ->
+  (forall t, t < length sds -> sd sds t < length sds -> in_d8 t (sd sds t) subncol = true) ->
+  check_cross sds ea subncol cs = true ->
+  forall idx0, idx0 < nrow * ncol ->
+  let s := nth idx0 (repcell sds upa subncol cs nrow ncol (eaf ea)) (length sds) in s < length sds ->
+  let r := eam_walk sds subncol cs nrow ncol ea (S (length sds)) idx0 s in r < nrow * ncol ->
+  in_d8 idx0 r ncol = true.
+Proof. exact UpscaleD8.eam_links_d8_checked. Qed.
+Print Assumptions eam_links_d8.
 
 (* LOOP-FREE COARSE NETWORKS (methods eam and eam_plus).  When the upstream area is positive on the fine network and strictly
    larger at the downstream pixel (true of every accumulation of positive cell areas; a user-supplied field need not be),
